@@ -242,6 +242,218 @@ theorem paths_createU (e : Expr) : ∀ br, (createU e br).paths = crossO (exprWo
     intro br
     simp only [createU, exprWords, Forest.paths_append, iha, ihb, crossO_append_left]
 
+/-! ### equal graphs have the same paths; de-duplication keeps the path set -/
+
+namespace Forest
+
+/-- the graphs of a list, as (node, children) pairs -/
+def elems : Forest → List (Observer × Forest)
+  | nil => []
+  | cons o k r => (o, k) :: elems r
+
+theorem any_eq_elems (p : Observer → Forest → Bool) (f : Forest) :
+    f.any p = f.elems.any (fun x => p x.1 x.2) := by
+  induction f with
+  | nil => rfl
+  | cons o k r _ ihr => simp [any, elems, ihr]
+
+theorem all_eq_elems (p : Observer → Forest → Bool) (f : Forest) :
+    f.all p = f.elems.all (fun x => p x.1 x.2) := by
+  induction f with
+  | nil => rfl
+  | cons o k r _ ihr => simp [all, elems, ihr]
+
+theorem elems_filter (q : Observer → Forest → Bool) (f : Forest) :
+    (f.filter q).elems = f.elems.filter (fun x => q x.1 x.2) := by
+  induction f with
+  | nil => rfl
+  | cons o k r _ ihr =>
+    simp only [filter, elems]
+    by_cases h : q o k = true
+    · simp [h, elems, ihr]
+    · have h' : q o k = false := by simpa using h
+      simp [h', ihr]
+
+theorem mem_paths {f : Forest} {p : List Observer} :
+    p ∈ f.paths ↔ ∃ x ∈ f.elems, ∃ q ∈ tails x.2, p = x.1 :: q := by
+  induction f with
+  | nil => simp [paths, elems]
+  | cons o k r _ ihr =>
+    rw [paths_cons, List.mem_append, ihr]
+    simp only [elems, List.mem_cons, List.mem_map]
+    constructor
+    · rintro (⟨q, hq, rfl⟩ | ⟨x, hx, q, hq, rfl⟩)
+      · exact ⟨(o, k), .inl rfl, q, hq, rfl⟩
+      · exact ⟨x, .inr hx, q, hq, rfl⟩
+    · rintro ⟨x, (rfl | hx), q, hq, rfl⟩
+      · exact .inl ⟨q, hq, rfl⟩
+      · exact .inr ⟨x, hx, q, hq, rfl⟩
+
+theorem depth_elem {f : Forest} {x : Observer × Forest} (h : x ∈ f.elems) :
+    x.2.depth + 1 ≤ f.depth := by
+  induction f with
+  | nil => simp [elems] at h
+  | cons o k r _ ihr =>
+    simp only [elems, List.mem_cons] at h
+    simp only [depth]
+    rcases h with rfl | h
+    · exact Nat.le_max_left _ _
+    · exact Nat.le_trans (ihr h) (Nat.le_max_right _ _)
+
+theorem tails_ne_nil (f : Forest) : f.tails ≠ [] := by
+  induction f with
+  | nil => simp [tails]
+  | cons o k r ihk _ =>
+    have : (cons o k r).tails = (cons o k r).paths := rfl
+    rw [this, paths_cons]
+    cases h : k.tails with
+    | nil => exact absurd h ihk
+    | cons a l => simp
+
+theorem depth_le_zero {f : Forest} (h : f.depth ≤ 0) : f = nil := by
+  cases f with
+  | nil => rfl
+  | cons o k r => simp only [depth] at h; omega
+
+/-- `set(f1) == set(f2)` (enough fuel) ⇒ the same continuations below -/
+theorem setEq_tails : ∀ (d : Nat) (f1 f2 : Forest), f1.depth ≤ d → f2.depth ≤ d →
+    setEq d f1 f2 = true → ∀ p, p ∈ f1.tails ↔ p ∈ f2.tails := by
+  intro d
+  induction d with
+  | zero =>
+    intro f1 f2 h1 h2 _ p
+    rw [depth_le_zero h1, depth_le_zero h2]
+  | succ d ih =>
+    intro f1 f2 h1 h2 h p
+    simp only [setEq, Bool.and_eq_true, all_eq_elems, any_eq_elems, List.all_eq_true,
+      List.any_eq_true, beq_iff_eq] at h
+    obtain ⟨hA, hB⟩ := h
+    -- the same paths
+    have hp : ∀ p, p ∈ f1.paths ↔ p ∈ f2.paths := by
+      intro p
+      rw [mem_paths, mem_paths]
+      constructor
+      · rintro ⟨x, hx, q, hq, rfl⟩
+        obtain ⟨y, hy, hxy, he⟩ := hA x hx
+        have dx := depth_elem hx
+        have dy := depth_elem hy
+        exact ⟨y, hy, q, (ih x.2 y.2 (by omega) (by omega) he q).mp hq, by rw [hxy]⟩
+      · rintro ⟨y, hy, q, hq, rfl⟩
+        obtain ⟨x, hx, hxy, he⟩ := hB y hy
+        have dx := depth_elem hx
+        have dy := depth_elem hy
+        exact ⟨x, hx, q, (ih x.2 y.2 (by omega) (by omega) he q).mpr hq, by rw [hxy]⟩
+    cases f1 with
+    | nil =>
+      cases f2 with
+      | nil => rfl
+      | cons o k r =>
+        exfalso
+        have hne := tails_ne_nil (cons o k r)
+        cases hh : (cons o k r).tails with
+        | nil => exact hne hh
+        | cons a l =>
+          have : a ∈ (cons o k r).paths := by
+            have : (cons o k r).tails = (cons o k r).paths := rfl
+            rw [← this, hh]; simp
+          have := (hp a).mpr this
+          simp [paths] at this
+    | cons o k r =>
+      cases f2 with
+      | nil =>
+        exfalso
+        have hne := tails_ne_nil (cons o k r)
+        cases hh : (cons o k r).tails with
+        | nil => exact hne hh
+        | cons a l =>
+          have : a ∈ (cons o k r).paths := by
+            have : (cons o k r).tails = (cons o k r).paths := rfl
+            rw [← this, hh]; simp
+          have := (hp a).mp this
+          simp [paths] at this
+      | cons o' k' r' => exact hp p
+
+/-- `ObserverGraph.__eq__` ⇒ same node and same continuations -/
+theorem graphEq_tails {o o' : Observer} {k k' : Forest} (h : graphEq o k o' k' = true) :
+    o = o' ∧ ∀ q, q ∈ k.tails ↔ q ∈ k'.tails := by
+  simp only [graphEq, Bool.and_eq_true, beq_iff_eq] at h
+  exact ⟨h.1, setEq_tails _ k k' (by omega) (by omega) h.2⟩
+
+theorem mem_paths_filter {q : Observer → Forest → Bool} {f : Forest} {p : List Observer}
+    (h : p ∈ (f.filter q).paths) : p ∈ f.paths := by
+  rw [mem_paths] at h ⊢
+  obtain ⟨x, hx, t, ht, rfl⟩ := h
+  rw [elems_filter, List.mem_filter] at hx
+  exact ⟨x, hx.1, t, ht, rfl⟩
+
+/-- dropping graphs equal to an earlier one does not change the set of paths -/
+theorem mem_paths_dedupe (f : Forest) : ∀ p, p ∈ f.dedupe.paths ↔ p ∈ f.paths := by
+  induction f with
+  | nil => intro p; rfl
+  | cons o k r _ ihr =>
+    intro p
+    simp only [dedupe]
+    rw [paths_cons, paths_cons, List.mem_append, List.mem_append]
+    constructor
+    · rintro (h | h)
+      · exact .inl h
+      · exact .inr ((ihr p).mp (mem_paths_filter h))
+    · rintro (h | h)
+      · exact .inl h
+      · have := (ihr p).mpr h
+        rw [mem_paths] at this
+        obtain ⟨x, hx, t, ht, rfl⟩ := this
+        by_cases hg : graphEq o k x.1 x.2 = true
+        · obtain ⟨e, hq⟩ := graphEq_tails hg
+          left
+          rw [List.mem_map]
+          exact ⟨t, (hq t).mpr ht, by rw [e]⟩
+        · right
+          rw [mem_paths]
+          refine ⟨x, ?_, t, ht, rfl⟩
+          rw [elems_filter, List.mem_filter]
+          exact ⟨hx, by simpa using hg⟩
+
+theorem mem_tails_dedupe (f : Forest) : ∀ p, p ∈ f.dedupe.tails ↔ p ∈ f.tails := by
+  cases f with
+  | nil => intro p; rfl
+  | cons o k r => exact mem_paths_dedupe (cons o k r)
+
+end Forest
+
+theorem mem_crossO {a t : List (List Observer)} {p : List Observer} :
+    p ∈ crossO a t ↔ ∃ w ∈ a, ∃ q ∈ t, p = w ++ q := by
+  simp only [crossO, List.mem_flatMap, List.mem_map]
+  constructor
+  · rintro ⟨w, hw, q, hq, rfl⟩; exact ⟨w, hw, q, hq, rfl⟩
+  · rintro ⟨w, hw, q, hq, rfl⟩; exact ⟨w, hw, q, hq, rfl⟩
+
+/-- the paths of the compiled graphs, as a set: every word of the expression
+followed by every continuation below -/
+theorem mem_paths_createD (e : Expr) : ∀ br p,
+    p ∈ (createD e br).paths ↔ p ∈ crossO (exprWords e) br.tails := by
+  induction e with
+  | single o =>
+    intro br p
+    simp only [createD, Forest.paths_cons, Forest.paths, List.append_nil, List.mem_map, exprWords,
+      mem_crossO, List.mem_singleton]
+    constructor
+    · rintro ⟨q, hq, rfl⟩
+      exact ⟨[o], rfl, q, (Forest.mem_tails_dedupe br q).mp hq, rfl⟩
+    · rintro ⟨w, rfl, q, hq, rfl⟩
+      exact ⟨q, (Forest.mem_tails_dedupe br q).mpr hq, rfl⟩
+  | series a b iha ihb =>
+    intro br p
+    simp only [createD, exprWords]
+    rw [iha, tails_createD, crossO_assoc, mem_crossO, mem_crossO]
+    constructor
+    · rintro ⟨w, hw, q, hq, rfl⟩; exact ⟨w, hw, q, (ihb br q).mp hq, rfl⟩
+    · rintro ⟨w, hw, q, hq, rfl⟩; exact ⟨w, hw, q, (ihb br q).mpr hq, rfl⟩
+  | parallel a b iha ihb =>
+    intro br p
+    simp only [createD, exprWords, Forest.paths_append, List.mem_append, crossO_append_left,
+      iha br p, ihb br p]
+
 /-! ### the code's notify propagation is the documented notify law -/
 
 theorem notifies_some (c : Conn) : notifies (some c) = (c == .notify) := by
